@@ -132,6 +132,8 @@ def replay_name(inputs, clause):
         if ctx != "Load" and id_ in ("ego", "workspace", "globalParameters", "str", "int", "float"):
             return None  # documented: built-in names cannot be overwritten
         return f"`{src.strip()}` is rejected: {getattr(e, 'msg', e)}"
+    if ctx == "Store" and id_ in ("ego", "workspace"):
+        return None  # `ego = X` / `workspace = X` are Scenic statements of their own (documented), not Python assignments
     d = first_difference(tree, ast.parse(src))
     return f"`{src.strip()}`: {d}" if d else None
 
